@@ -23,7 +23,7 @@ import (
 
 func init() {
 	checkers["C05"] = checker{
-		rule: "contents (empty, 1 byte .. tier bound), content types (data, SpcIndirectDataContent, arbitrary OIDs incl. large arcs), RSA 2048/3072/4096 keys, certificates with short / long / multi-RDN issuers and serials of 1..20 bytes incl. high-bit and leading-zero patterns; a recording crypto.Signer captures the digest the library asks to sign; the output is compared byte for byte with the Coq model sign_pkcs7 (R_C05 extracted, signing time read back and bracketed), re-parsed and verified by the library itself, and verified -- with the right content accepted and another content rejected -- by an RFC 2315 verifier on encoding/asn1+crypto/rsa, by go.mozilla.org/pkcs7 and, for data content, by `openssl smime -verify`; every case is non-trivial, distinct by hash of (certificate, OID, content)",
+		rule: "contents (empty, 1 byte .. tier bound), content types (data, SpcIndirectDataContent, arbitrary OIDs incl. large arcs), RSA 2048/3072/4096 keys, certificates with short / long / multi-RDN issuers and issuers with UTF8String values (as OpenSSL writes them) and serials of 1..20 bytes incl. high-bit and leading-zero patterns; a recording crypto.Signer captures the digest the library asks to sign; the output is compared byte for byte with the Coq model sign_pkcs7 (R_C05 extracted, signing time read back and bracketed), re-parsed and verified by the library itself, and verified -- with the right content accepted and another content rejected -- by an RFC 2315 verifier on encoding/asn1+crypto/rsa, by go.mozilla.org/pkcs7 and, for data content, by `openssl smime -verify`; every case is non-trivial, distinct by hash of (certificate, OID, content)",
 		run:  runC05,
 	}
 }
@@ -109,6 +109,10 @@ func runC05(c *Ctx) {
 		}
 		key := rsaKey(bits, i%2)
 		cert := mintCert(key, genIssuer(rng), genSerial(rng))
+		if rng.Intn(4) == 0 {
+			// an issuer as OpenSSL encodes it: UTF8String values
+			cert = mintCertRawName(key, utf8Name(fmt.Sprintf("utf8 signer %d", rng.Intn(1000)), "Verif Org"), genSerial(rng))
+		}
 		oid, oidClass := genOID(rng)
 		var content []byte
 		switch rng.Intn(6) {
